@@ -31,6 +31,37 @@ ASSUMPTIONS = ['deleting through a structurally equal twin may either be rejecte
                'renames that would give two contained tables the same name are not explored (the statement does not define that state)',
                'a bad position may raise IndexError; wrong argument types may raise TypeError; any rejected operation must leave the state unchanged']
 
+# Observers are calls into the code under test and may themselves touch hidden state (a lookup cache, say).  Every history is
+# therefore explored under three observer schedules: lookups in forward order, in reverse order (so a different lookup is the
+# last one before the next operation), and 'quiet' (no observation at all until the history's last step).
+MODE = 'fwd'
+MODES = ('fwd', 'rev', 'quiet')
+
+
+def _ordered(seq):
+    return list(reversed(seq)) if MODE == 'rev' else list(seq)
+
+
+def hidden_state(obj, known, ident):
+    """Attributes of ``obj`` the harness does not know by name (a cache added by a change, for instance), canonicalised so that
+    two implementation states are only merged when these agree as well."""
+    def canon(v, depth=0):
+        if id(v) in ident:
+            return '@' + ident[id(v)]
+        if isinstance(v, dict) and depth < 3:
+            return sorted((repr(k), canon(x, depth + 1)) for k, x in v.items())
+        if isinstance(v, (list, tuple, set, frozenset)) and depth < 3:
+            items = [canon(x, depth + 1) for x in v]
+            return sorted(items, key=repr) if isinstance(v, (set, frozenset)) else items
+        if isinstance(v, (str, int, float, bool, type(None))):
+            return v
+        return type(v).__name__
+    return sorted((k, canon(v)) for k, v in vars(obj).items() if k not in known)
+
+
+KNOWN_DB = {'sql_renderer', 'dbml_renderer', 'tables', 'refs', 'enums', 'table_groups', 'sticky_notes', 'project', 'allow_properties'}
+KNOWN_TABLE = {'database', 'name', 'schema', 'columns', 'indexes', 'alias', '_note', 'header_color', 'comment', 'abstract', 'properties'}
+
 LIB_ERRORS = ('DatabaseValidationError', 'ColumnNotFoundError', 'IndexNotFoundError', 'ValidationError', 'TableNotFoundError',
               'UnknownDatabaseError', 'DBMLError', 'AttributeMissingError')
 
@@ -269,7 +300,7 @@ def observe_db(db, U):
             pos.append('!' + type(e).__name__)
     obs['pos'] = pos
     look = {}
-    for n in LOOKUP_NAMES:
+    for n in _ordered(LOOKUP_NAMES):
         try:
             look[n] = key(db[n])
         except KeyError:
@@ -313,7 +344,9 @@ def impl_hash(db, U, obs):
     td = getattr(db, 'table_dict', None)
     tdd = sorted((k, ident.get(id(v), '?')) for k, v in td.items()) if isinstance(td, dict) else repr(type(td))
     attrs = sorted((k, o.schema, o.name, o.alias) for k, o in U.items() if kind_of(k) == 'table')
-    return digest([obs, tdd, attrs])
+    hidden = [hidden_state(db, KNOWN_DB | {'table_dict'}, ident)] + \
+             [(k, hidden_state(o, KNOWN_TABLE, ident)) for k, o in U.items() if kind_of(k) == 'table']
+    return digest([obs, tdd, attrs, hidden])
 
 
 # operations of universe A / B: ('add', key) ('delete', key) ('delete_project',) ('rename', key, attr, val)
@@ -342,6 +375,12 @@ def ops_B():
 
 def apply_impl(db, U, op):
     """-> ('ok', None) | ('raised', exception)"""
+    if op[0] == 'lookup':
+        try:
+            db[op[1]]
+        except Exception:
+            pass
+        return 'ok', None
     try:
         if op[0] == 'add':
             db.add(U[op[1]])
@@ -364,24 +403,46 @@ def step_db(universe_fn, hist, opsfn):
     db = Database()
     M = Model(U)
     obs = observe_db(db, U)
-    h = impl_hash(db, U, obs)
+    h = digest([impl_hash(db, U, obs)])
     changed = False
     for n, op in enumerate(hist):
         before = h
+        prev_obs = obs
+        hid_pre = impl_hash(db, U, None)     # internal state right before the operation
+        quiet = MODE == 'quiet' and n < len(hist) - 1
         if op[0] == 'rename':
             M.rename(op[1], op[2], op[3])
+            out, exc = apply_impl(db, U, op)
+            verdict, fn = 'ok', None
+        elif op[0] == 'lookup':
             out, exc = apply_impl(db, U, op)
             verdict, fn = 'ok', None
         else:
             verdict, fn = (M.delete_project() if op[0] == 'delete_project' else getattr(M, op[0])(op[1]))
             out, exc = apply_impl(db, U, op)
+        if quiet:
+            # no observer runs between the operations: only the outcome class is compared here, the state at the end
+            if verdict == 'either-of':
+                return 'skip', db, U, M, False, h
+            if out == 'raised' and type(exc).__name__ != 'DatabaseValidationError':
+                return [('wrong-exception', f'step {n} {op}: raised {type(exc).__name__}: {str(exc)[:100]}', 'DatabaseValidationError', exc_info(exc))], db, U, M, changed, h
+            if verdict == 'ok' and out != 'ok':
+                return [('valid-operation-rejected', f'step {n} {op}: rejected with {type(exc).__name__}: {str(exc)[:100]}', 'accepted', exc_info(exc))], db, U, M, changed, h
+            if verdict == 'rejected' and out == 'ok':
+                return [('invalid-operation-accepted', f'step {n} {op}: accepted, the model rejects it', 'DatabaseValidationError', 'no exception')], db, U, M, changed, h
+            if out == 'ok' and fn:
+                fn()
+            continue
+        hid_post = impl_hash(db, U, None)    # internal state right after the operation, before any observer runs
         obs = observe_db(db, U)
-        h = impl_hash(db, U, obs)
-        changed = h != before
+        # the state exploration continues from: in quiet mode the one before the observers ran, otherwise the one they left
+        h = digest([impl_hash(db, U, obs), hid_post if MODE == 'quiet' else None])
+        changed = (obs != prev_obs) or (hid_pre != hid_post)
         where = f'step {n} {op}'
         if out == 'raised' and type(exc).__name__ != 'DatabaseValidationError':
             return [('wrong-exception', f'{where}: raised {type(exc).__name__}: {str(exc)[:100]} (a rejected operation raises the validation error)',
                      'DatabaseValidationError' if verdict != 'ok' else 'no exception', exc_info(exc))], db, U, M, changed, h
+        unknown_before = MODE == 'quiet' and n > 0
         if verdict == 'ok':
             if out != 'ok':
                 return [('valid-operation-rejected', f'{where}: rejected with {type(exc).__name__}: {str(exc)[:100]}', 'accepted', exc_info(exc))], db, U, M, changed, h
@@ -390,12 +451,12 @@ def step_db(universe_fn, hist, opsfn):
         elif verdict == 'rejected':
             if out == 'ok':
                 return [('invalid-operation-accepted', f'{where}: accepted, the model rejects it', 'DatabaseValidationError', 'no exception')], db, U, M, changed, h
-            if h != before:
+            if changed and not unknown_before:
                 return [('rejected-operation-changed-state', f'{where}: raised {type(exc).__name__} but the database changed', 'state unchanged', obs)], db, U, M, changed, h
         elif verdict == 'either':
             if out == 'ok':
                 fn()
-            elif h != before:
+            elif changed and not unknown_before:
                 return [('rejected-operation-changed-state', f'{where}: raised {type(exc).__name__} but the database changed', 'state unchanged', obs)], db, U, M, changed, h
         elif verdict == 'either-of':
             if out != 'ok':
@@ -452,24 +513,30 @@ def bfs_db(p, universe_fn, ops, first, depth, label):
     while q:
         hist = q.popleft()
         probs, db, U, M, changed, h = step_db(universe_fn, hist, ops)
+        if probs == 'skip':
+            continue
         p['transitions'] += 1
         p['evaluations'] += 1
         p['traces'] += 1
         if probs:
             kind, detail, exp, got = probs[0]
             p['outcomes'][f'{label}/{kind}'] += 1
-            p['violations'].append(violation(PID, kind, {'universe': label, 'history': [list(o) for o in hist]}, expected=exp, observed=got,
+            p['violations'].append(violation(PID, kind, {'universe': label, 'history': [list(o) for o in hist], 'observers': MODE}, expected=exp, observed=got,
                                              detail=detail))
             continue
         p['outcomes'][f'{label}/{hist[-1][0]}/' + ('changed' if changed else 'unchanged-or-rejected')] += 1
-        p['nontrivial'].add(digest([label, hist]))
-        if h in seen:
+        p['nontrivial'].add(digest([label, MODE, hist]))
+        skey = (h, trailing_lookups(hist))
+        if skey in seen:
             continue
-        seen.add(h)
+        seen.add(skey)
         p['states'] += 1
         if len(hist) < depth:
             for op in enabled_db(M, ops):
                 q.append(hist + (op,))
+            if MODE == 'quiet' and label == 'A' and len(trailing_lookups(hist)) < 2:
+                for op in LOOKUPS_A:
+                    q.append(hist + (op,))
     return len(seen)
 
 
@@ -517,6 +584,19 @@ OPS_T = ([('add_column', k) for k in ('n', 'c1', 'c2', 'i1')] +
          [('delete_index_pos', i) for i in (0, 1, 5)])
 
 
+LOOKUPS_T = [('lookup', 'c1'), ('lookup', 'c2'), ('lookup', 'n')]
+LOOKUPS_A = [('lookup', 'public.a'), ('lookup', 'x'), ('lookup', 'public.z')]
+
+
+def trailing_lookups(hist):
+    out = []
+    for op in reversed(hist):
+        if op[0] != 'lookup':
+            break
+        out.append(op)
+    return tuple(out)
+
+
 class TModel:
     def __init__(self):
         self.cols = ['c1', 'c2', 'c3']
@@ -537,6 +617,8 @@ class TModel:
     def op(self, op):
         """-> (verdict, fn)  verdict: ok | rejected | either | typeerror | any-unchanged"""
         kind, a = op
+        if kind == 'lookup':
+            return 'lookup', None
         if kind == 'add_column':
             if a == 'i1':
                 return 'typeerror', None
@@ -617,7 +699,7 @@ class TModel:
                 'pos': list(self.cols) + ['IndexError'],
                 'byname': {n: names.get(n, 'ColumnNotFoundError') for n in ('c1', 'c2', 'c3', 'n', 'f', 'zz')},
                 'get': {n: names.get(n) for n in ('c1', 'c2', 'c3', 'n', 'f', 'zz')},
-                'col_owner': dict(self.owner), 'idx_owner': dict(self.iowner)}
+                'col_owner': dict(self.owner), 'idx_owner': dict(self.iowner)}   # ('hidden' is hashed, not compared)
 
 
 def observe_T(U):
@@ -638,11 +720,12 @@ def observe_T(U):
             pos.append('!' + type(e).__name__)
     obs['pos'] = pos
     byname, get = {}, {}
-    for n in ('c1', 'c2', 'c3', 'n', 'f', 'zz'):
+    for n in _ordered(('c1', 'c2', 'c3', 'n', 'f', 'zz')):
         try:
             byname[n] = key(t[n])
         except Exception as e:
             byname[n] = type(e).__name__
+    for n in _ordered(('c1', 'c2', 'c3', 'n', 'f', 'zz')):
         try:
             get[n] = key(t.get(n))
         except Exception as e:
@@ -650,12 +733,19 @@ def observe_T(U):
     obs['byname'], obs['get'] = byname, get
     obs['col_owner'] = {k: key(U[k].table) for k in ('c1', 'c2', 'c3', 'c1t', 'f', 'n')}
     obs['idx_owner'] = {k: key(U[k].table) for k in ('i1', 'i2', 'i1t', 'inew', 'iforeign', 'imixed', 'iabsent')}
+    obs['hidden'] = hidden_state(t, KNOWN_TABLE, ident)
     return obs
 
 
 def apply_T(U, op):
     t = U['t']
     kind, a = op
+    if kind == 'lookup':
+        try:
+            t[a]
+        except Exception:
+            pass
+        return 'ok', None
     try:
         if kind == 'add_column':
             t.add_column(U[a])
@@ -677,18 +767,30 @@ def apply_T(U, op):
 def step_T(hist):
     U = universe_T()
     M = TModel()
+    ident = {id(o): k for k, o in U.items()}
     obs = observe_T(U)
-    h = digest(obs)
+    h = digest([obs])
     changed = False
     for n, op in enumerate(hist):
         before = h
+        prev_obs = obs
+        hid_pre = hidden_state(U['t'], KNOWN_TABLE, ident)
         verdict, fn = M.op(op)
         if verdict == 'skip':
             return 'skip', None, M, False, h
+        quiet = MODE == 'quiet' and n < len(hist) - 1
+        if quiet and verdict == 'either-of':
+            return 'skip', None, M, False, h
         out, exc = apply_T(U, op)
-        obs = observe_T(U)
-        h = digest(obs)
-        changed = h != before
+        if not quiet:
+            # hidden attributes are snapshotted before the observers run (which may themselves rebuild or drop a cache)
+            hid_post = hidden_state(U['t'], KNOWN_TABLE, ident)
+            obs = observe_T(U)
+            h = digest([obs, hid_post if MODE == 'quiet' else None])
+            changed = ({k: v for k, v in obs.items() if k != 'hidden'} != {k: v for k, v in prev_obs.items() if k != 'hidden'}) or hid_pre != hid_post
+        if verdict == 'lookup':
+            verdict, fn = 'ok', (lambda: None)
+        unknown_before = MODE == 'quiet' and n > 0
         where = f'step {n} {op}'
         en = type(exc).__name__ if exc is not None else None
         if out == 'raised':
@@ -697,7 +799,7 @@ def step_T(hist):
                 return [('valid-operation-rejected', f'{where}: raised {en}: {str(exc)[:100]}', 'accepted', exc_info(exc))], U, M, changed, h
             if en not in allowed:
                 return [('wrong-exception', f'{where}: raised {en}: {str(exc)[:100]}, expected one of {allowed}', list(allowed), exc_info(exc))], U, M, changed, h
-            if h != before:
+            if changed and not quiet and not unknown_before:
                 return [('rejected-operation-changed-state', f'{where}: raised {en} but the table / back-pointers changed', 'state unchanged', obs)], U, M, changed, h
         else:
             if verdict in ('rejected', 'typeerror', 'badpos'):
@@ -711,6 +813,8 @@ def step_T(hist):
                 if any(e0[k] != obs[k] for k in e0):
                     M.idx, M.iowner = snap[0], snap[1]
                     fn[1]()
+        if quiet:
+            continue
         exp = M.expected()
         exp['columns_iter'] = exp['columns']
         mm = _mismatch(exp, obs)
@@ -733,17 +837,23 @@ def bfs_T(p, first, depth):
         if probs:
             kind, detail, exp, got = probs[0]
             p['outcomes'][f'T/{kind}'] += 1
-            p['violations'].append(violation(PID, kind, {'universe': 'T', 'history': [list(o) for o in hist]}, expected=exp, observed=got, detail=detail))
+            p['violations'].append(violation(PID, kind, {'universe': 'T', 'history': [list(o) for o in hist], 'observers': MODE}, expected=exp, observed=got, detail=detail))
             continue
         p['outcomes'][f'T/{hist[-1][0]}/' + ('changed' if changed else 'unchanged-or-rejected')] += 1
-        p['nontrivial'].add(digest(['T', hist]))
-        if h in seen:
+        p['nontrivial'].add(digest(['T', MODE, hist]))
+        # a state reached through lookups is kept apart from the same observable state without them (a lookup may warm a cache
+        # that no attribute shows); at most two lookups in a row
+        skey = (h, trailing_lookups(hist))
+        if skey in seen:
             continue
-        seen.add(h)
+        seen.add(skey)
         p['states'] += 1
         if len(hist) < depth:
             for op in OPS_T:
                 q.append(hist + (op,))
+            if MODE == 'quiet' and len(trailing_lookups(hist)) < 2:
+                for op in LOOKUPS_T:
+                    q.append(hist + (op,))
 
 
 # ------------------------------------------------------------------------------------------------
@@ -751,17 +861,19 @@ def bfs_T(p, first, depth):
 def units(tier, seed):
     b = bounds(tier)
     us = []
-    for op in ops_A():
-        us.append(('A', op, b['depth_A']))
-    for op in ops_B():
-        us.append(('B', op, b['depth_B']))
-    for op in OPS_T:
-        us.append(('T', op, b['depth_T']))
+    for mode in MODES:
+        for op in ops_A():
+            us.append(('A', op, b['depth_A'], mode))
+        for op in ops_B():
+            us.append(('B', op, b['depth_B'], mode))
+        for op in OPS_T:
+            us.append(('T', op, b['depth_T'], mode))
     return us
 
 
 def work(unit):
-    label, first, depth = unit
+    global MODE
+    label, first, depth, MODE = unit
     p = new_part()
     if label == 'A':
         if first in enabled_db(Model(universe_A()), ops_A()):
@@ -770,11 +882,13 @@ def work(unit):
         bfs_db(p, universe_B, ops_B(), first, depth, 'B')
     else:
         bfs_T(p, first, depth)
-    p['samples'].append({'universe': label, 'first_operation': list(first), 'depth': depth})
+    p['samples'].append({'universe': label, 'first_operation': list(first), 'depth': depth, 'observers': MODE})
     return p
 
 
 def replay(case):
+    global MODE
+    MODE = case.get('observers', 'fwd')
     hist = tuple(tuple(o) for o in case['history'])
     out = []
     if case['universe'] == 'T':
@@ -783,6 +897,8 @@ def replay(case):
             probs = []
     else:
         probs, *_ = step_db(universe_A if case['universe'] == 'A' else universe_B, hist, None)
+        if probs == 'skip':
+            probs = []
     for kind, detail, exp, got in probs:
         out.append(violation(PID, kind, case, expected=exp, observed=got, detail=detail))
     return out
